@@ -72,6 +72,16 @@ func c04History(e *core.Env, r *core.Rand, idx int64) {
 	}
 	d := gen.Document(r, gen.Opts{MaxRecs: r.PickInt(6, 6, 6, 14), MaxEntries: 4, Near: &today, NearSpread: r.PickInt(1, 2, 5), Sorted: r.Chance(3, 4), NoDupDates: r.Chance(2, 3), Hostile: r.Chance(2, 3), OpenRanges: 1,
 		Tags: 1, Unicode: r.Chance(1, 4), LookAlikes: r.Chance(1, 3), TrailingBlank: false, MaxHours: 12})
+	if k := core.Hash64("c04-size", fmt.Sprint(e.Seed, idx)) % 150; k < 2 {
+		// the history plays in front of a big file: more than a thousand later records, or a line beyond 64 KiB
+		extra := manyRecordsText(r, r.PickInt(1001, 1100))
+		if k == 1 {
+			extra = longLineText(r, r.PickInt(65536, 70000))
+		}
+		if x, ok := withAppended(d, extra); ok {
+			d = x
+		}
+	}
 	file := e.Dir + "/c04.klg"
 	if err := os.WriteFile(file, []byte(d.Text), 0644); err != nil {
 		panic(err)
